@@ -536,6 +536,15 @@ def fam_bound(tier, rng):
         for k in range(0, 9):
             ops.append(f"visit tx b{k} " + hx(t[:cut]))
         ops.append("visit tx n " + hx(t[:cut]))
+    # size sweep: one-input segwit and legacy transactions whose inputs+outputs section takes every length from the
+    # smallest up to ~1.1 KB (fixed-size scratch buffers in the hashing helpers, windows a few bytes wide)
+    for L in list(range(0, 1100)):
+        script = bytes((i * 3 + L) % 256 for i in range(L))
+        ts = Tx(1, [(pat.take(32), 1, b"", 0xFFFFFFFE)], [(9, script)] if L % 7 else ([(9, script)] if L else []), [[b"\x01"]], 0x01020304, True)
+        ops.append("visit tx n " + hx(ts.enc() + (b"\xee" if L % 2 else b"")))
+        if L % 3 == 0:
+            tl = Tx(-1, [(pat.take(32), 1, script, 5)], [(9, b"")], [], 0xFFFFFFFF, False)
+            ops.append("visit tx n " + hx(tl.enc()))
     # outpoints: null / coinbase-like indices with zero and non-zero ids; ordering pairs that differ only in the index
     for txid in (bytes(32), bytes(range(1, 33)), bytes([0xFF] * 32)):
         for vout in (0, 1, 255, 256, 257, 65535, 65536, 0x7FFFFFFF, 0xFFFFFFFE, 0xFFFFFFFF):
